@@ -46,14 +46,16 @@ def guarded(fn, case, limit=30):
         signal.alarm(0)
 
 
-def shrink(S, case, failing, budget=400):
+def shrink(S, case, failing, budget=400, seconds=45):
     cur = case
     changed = True
+    deadline = time.time() + seconds          # long histories are slow to re-run: a replay that is not minimal is still a replay
     while changed and budget > 0:
         changed = False
         for cand in S.shrink_candidates(cur):
             budget -= 1
-            if budget <= 0:
+            if budget <= 0 or time.time() > deadline:
+                budget = 0
                 break
             try:
                 if failing(cand):
